@@ -4,6 +4,7 @@ import TornadoModel.C29.RunLevel
 import TornadoModel.C29.RunCE
 import TornadoModel.C29.WireCL
 import TornadoModel.C29.RunVary
+import TornadoModel.C29.RunGz
 namespace TornadoModel.C29
 open TornadoModel.C02
 open TornadoModel.C06 (Str normalize)
@@ -226,6 +227,18 @@ theorem vary_on_every_response (gz : Gz) (rq : Req) (ae : Option Str) (prog : Li
 /-! non-vacuity: an op that raises (invalid header value) leads to the framework's 500 page — a head is written -/
 example : ((run (fun _ => []) { method := .head, v11 := true, conn := .absent } (some vGzip)
     [Op.setHeader [88] [10]]).base.conn.head.map (·.1)) = some 500 := by decide
+
+/-- **gzip_only_if_accepted** (run level, NO side condition — every program, request shape, gzip writer): if at
+    the end of the run the transform is compressing, or the gzip writer was called at all, then the request's
+    Accept-Encoding mentions gzip.  (With `decoded_per_content_encoding`: in clean runs the response carries
+    `Content-Encoding: gzip` only if the request mentions gzip.) -/
+theorem gzip_only_if_accepted (gz : Gz) (rq : Req) (ae : Option Str) (prog : List Op) :
+    ((run gz rq ae prog).t.gzipping = true ∨ (run gz rq ae prog).t.hist ≠ []) → mentionsGzip ae = true := by
+  have v := P_runOps gz rq (GzP ae) (fun s fin h => GzP_hFlush gz rq ae s fin h) prog (init rq ae)
+    ⟨fun h => h, fun h => absurd rfl h, fun _ => rfl⟩
+  rintro (h | h)
+  · exact v.1 h
+  · exact v.1 (v.2.1 h)
 
 /-- **run_feed_is_writes** (no contract needed): in the same runs the transform is fed exactly the program's
     writes, as flushes followed by exactly one close, and the response body is the concatenation of what it emitted;
